@@ -196,12 +196,16 @@ RunClauses ==
         [] Run.op = "reverse" -> << <<"L2.reverse", Run.final.lg = ReverseLogsF(Pre.lg) /\ Run.final.st = Pre.st>> >>
         [] Run.op = "remove_absence" ->
              On("C18", C18_H(Cfg, Run, Pre))
-             \o (IF LogsAligned(Run.final.lg) /\ Run.ret = "ok" THEN On("C07", C07_AfterEdit(Cfg, Opts, Run.final.lg)) ELSE <<>>)
-             \o << <<"L2.remove_absence", Run.ret = "ok" /\ Run.final.lg = RemoveAbsenceF(Pre.lg)>> >>
+             \o (IF Run.ret = "ok" THEN On("C07", C07_AfterEdit(Cfg, Opts, Run.final.lg)) ELSE <<>>)   \* (these clauses guard their own indexing)
+             \o (IF LogsAligned(Pre.lg)
+                 THEN << <<"L2.remove_absence", Run.ret = "ok" /\ Run.final.lg = RemoveAbsenceF(Pre.lg)>> >>
+                 ELSE << <<"X.logs-aligned", FALSE>> >>)
         [] Run.op = "insert_absence" ->
              On("C18", C18_H(Cfg, Run, Pre))
-             \o (IF LogsAligned(Run.final.lg) /\ Run.ret = "ok" THEN On("C07", C07_AfterEdit(Cfg, Opts, Run.final.lg)) ELSE <<>>)
-             \o << <<"L2.insert_absence", Run.ret = "ok" /\ Run.final.lg = InsertAbsenceF(Cfg, Pre.lg, Run.args.L)>> >>
+             \o (IF Run.ret = "ok" THEN On("C07", C07_AfterEdit(Cfg, Opts, Run.final.lg)) ELSE <<>>)   \* (these clauses guard their own indexing)
+             \o (IF LogsAligned(Pre.lg)
+                 THEN << <<"L2.insert_absence", Run.ret = "ok" /\ Run.final.lg = InsertAbsenceF(Cfg, Pre.lg, Run.args.L)>> >>
+                 ELSE << <<"X.logs-aligned", FALSE>> >>)
         [] Run.op = "saveload" -> On("C16", C16_H(Cfg, Run, Pre))
         [] OTHER -> <<>>)
 
